@@ -40,6 +40,8 @@ ASSUME /\ Distinct(VariantNo, 48) /\ Distinct(AttrNo, 48) /\ Distinct(TagNo, 24)
 FlipMasks == <<0, 32, 16, 64, 128, 1, 2, 4>>
 (* XOR of a byte with a one-bit mask: add the mask if the bit is clear, subtract it if set                                *)
 XorByte(b, m) == IF m = 0 THEN b ELSE IF (b \div m) % 2 = 0 THEN b + m ELSE b - m
+(* short ones too: a cache of recent inputs may hold only short texts                                                    *)
+FlipBase == << B("en-US"), B("es-419"), B("de-1996-t-h0-hybrid") >>
 AnyBase == << B("en-US-u-foo-t-hi-latn"), B("sr_Cyrl_RS_valencia_x_a1"), B("de-1996-u-ca-gregory-t-h0-hybrid") >>
 Heads == << <<B("en")>>, <<B("SR"), B("cyrl"), B("rs")>>, <<B("und"), B("419")>> >>
 
@@ -79,7 +81,7 @@ Toks ==
       (* that folds case with a bit operation confuses exactly these texts with the well-formed one; the harness parses the   *)
       (* unmodified text first ("after"), so that a remembered answer for it is there to be confused with.                    *)
       [] kind = "flipbit" ->
-           LET base == AnyBase[head]
+           LET base == FlipBase[head]
                off == (n \div 8) + 1
                m == FlipMasks[(n % 8) + 1]
            IN Split([base EXCEPT ![off] = XorByte(@, m)])
@@ -101,7 +103,7 @@ Kinds6 == {"variants", "attrs", "keywords", "tfields", "tags", "all", "odd", "ty
 (* interchangeable at any length, C09 / C13)                                  *)
 Init == kind \in Kinds6 /\ head \in 1..3
         /\ n \in 0..(IF kind = "odd" THEN 3 * MaxN ELSE IF kind = "anybyte" THEN 256 * (Len(AnyBase[head]) + 1) - 1
-                       ELSE IF kind = "flipbit" THEN 8 * Len(AnyBase[head]) - 1 ELSE MaxN)
+                       ELSE IF kind = "flipbit" THEN 8 * Len(FlipBase[head]) - 1 ELSE MaxN)
         /\ us \in BOOLEAN /\ (us => kind \in {"variants", "all"} /\ n % 4 = 1)
         /\ (kind \in {"keywords", "tfields", "attrs", "tags", "all", "types", "tvalues"} => n >= 1)
 Spec == Init /\ [][FALSE]_<<kind, n, head, us>>
@@ -125,7 +127,7 @@ RoundTrip == RLoc.zone = "accept" =>
                 LET s == SerLoc(RLoc.val)  r == ParseLoc(s) IN r.zone = "accept" /\ r.val = RLoc.val /\ Len(s) <= Len(Join(Toks))
 
 CaseRec ==
-    [k |-> "parse", after |-> IF kind = "flipbit" THEN AnyBase[head] ELSE <<>>, toks |-> Toks, seps |-> [j \in 1..(Len(Toks) - 1) |-> IF us /\ j % 3 = 0 THEN 95 ELSE 45],
+    [k |-> "parse", after |-> IF kind = "flipbit" THEN FlipBase[head] ELSE <<>>, toks |-> Toks, seps |-> [j \in 1..(Len(Toks) - 1) |-> IF us /\ j % 3 = 0 THEN 95 ELSE 45],
      li |-> [ok |-> RLI.ok, err |-> RLI.err, val |-> RLI.val, ser |-> SerLI(RLI.val)],
      loc |-> [zone |-> RLoc.zone, why |-> RLoc.why, val |-> RLoc.val, ser |-> SerLoc(RLoc.val)]]
 EmitCase == PrintT("CASE " \o ToJson(CaseRec))
